@@ -32,6 +32,17 @@ type Failure struct {
 	Choices  []int           `json:"choices"`
 	Stable   bool            `json:"stable"` // reproduced identically on 5 replays
 	Order    int64           `json:"order"`  // index of the scenario in enumeration order (simplest first)
+	// History: the executions that ran on the same live instance just before this one.  It is
+	// kept (and becomes part of the replay file) only if the failure does not reproduce on a
+	// fresh instance alone but does reproduce after them: state carried from one connection
+	// to the next.
+	History []HistItem `json:"history,omitempty"`
+}
+
+// HistItem is one earlier execution on the same instance.
+type HistItem struct {
+	Scenario json.RawMessage `json:"scenario"`
+	Choices  []int           `json:"choices"`
 }
 
 // Report is what one shard (or the merged run) measured.
@@ -53,6 +64,7 @@ type Report struct {
 	outSet      map[uint64]struct{}
 	stateSet    map[uint64]struct{}
 	sigSeen     map[string]bool
+	history     []HistItem
 	deadline    time.Time
 	curIdx      int64
 	curScenario []byte
@@ -126,6 +138,67 @@ func (r *Report) AddStats(sc any, st *explore.Stats) {
 	}
 }
 
+// SetHistory declares which executions preceded the failures reported next on the same
+// live instance (nil: none / fresh instance).
+func (r *Report) SetHistory(h []HistItem) { r.history = h }
+
+// Item makes a history item of a scenario and a choice list.
+func Item(sc any, choices []int) HistItem {
+	b, _ := json.Marshal(sc)
+	return HistItem{Scenario: b, Choices: append([]int(nil), choices...)}
+}
+
+// Seq explores executions that run one after the other on the same live instance (a
+// provisioned route list, a loaded matcher) and attaches to every failure the execution
+// that preceded it, so that a failure caused by state carried over from an earlier
+// connection is replayable (Failure.History).  The zero value is ready; use a new Seq for
+// every fresh instance.
+type Seq struct {
+	lastSc      any
+	lastChoices []int
+	has         bool
+}
+
+// Done records an execution that ran outside Explore (e.g. a directly evaluated input).
+func (q *Seq) Done(sc any, choices []int) { q.lastSc, q.lastChoices, q.has = sc, choices, true }
+
+func (q *Seq) hist() []HistItem {
+	if !q.has {
+		return nil
+	}
+	return []HistItem{Item(q.lastSc, q.lastChoices)}
+}
+
+// FailAfter reports a failure of an execution that ran after the recorded one.
+func (q *Seq) FailAfter(rep *Report, sc any, sig, msg string, choices []int) {
+	rep.SetHistory(q.hist())
+	rep.Fail(sc, sig, msg, choices)
+	rep.SetHistory(nil)
+}
+
+// Explore is ex.Explore(body) + AddStats, with history.
+func (q *Seq) Explore(ex *explore.Explorer, sc any, rep *Report, body func(*explore.Exec)) {
+	before := map[string][]HistItem{}
+	ex.Explore(func(x *explore.Exec) {
+		body(x)
+		for _, f := range x.Failures {
+			if _, ok := before[f.Sig]; !ok {
+				before[f.Sig] = q.hist()
+			}
+		}
+		q.lastSc, q.lastChoices, q.has = sc, x.Choices(), true
+	})
+	fs := ex.Stats.Failures
+	ex.Stats.Failures = nil
+	rep.AddStats(sc, &ex.Stats)
+	ex.Stats.Failures = fs
+	for _, f := range fs {
+		rep.SetHistory(before[f.Sig])
+		rep.Fail(sc, f.Sig, f.Msg, f.Choices)
+	}
+	rep.SetHistory(nil)
+}
+
 // Fail records a violation (first per signature is kept: scenarios are enumerated simplest first).
 func (r *Report) Fail(sc any, sig, msg string, choices []int) {
 	if r.sigSeen[sig] {
@@ -134,7 +207,7 @@ func (r *Report) Fail(sc any, sig, msg string, choices []int) {
 	}
 	r.sigSeen[sig] = true
 	b, _ := json.Marshal(sc)
-	r.Failures = append(r.Failures, Failure{Sig: sig, Msg: msg, Scenario: b, Choices: choices, Order: r.curIdx})
+	r.Failures = append(r.Failures, Failure{Sig: sig, Msg: msg, Scenario: b, Choices: choices, Order: r.curIdx, History: r.history})
 }
 
 // Harness is what a property check provides.
@@ -148,6 +221,9 @@ type Harness struct {
 	Scenarios func(tier string, yield func(sc any) bool)
 	// Run explores one scenario exhaustively within the tier's bounds.
 	Run func(tier string, sc any, rep *Report)
+	// ReplayH (optional) replays an execution on a fresh instance after the given earlier
+	// executions; used when a failure does not reproduce alone (see Failure.History).
+	ReplayH func(history []HistItem, sc any, choices []int) []explore.Failure
 	// DecodeScenario rebuilds a scenario from its JSON form (for replay).
 	DecodeScenario func(raw json.RawMessage) (any, error)
 	// Replay runs one scenario with one fixed choice list and returns the failures it shows.
@@ -314,19 +390,29 @@ func runShard(h *Harness, tier string, i, n int, seed int64, outPath string) *Re
 			f.Stable = false
 			continue
 		}
-		for t := 0; t < 5; t++ {
-			got := safeReplay(h, sc, f.Choices)
-			found := false
-			for _, g := range got {
-				if g.Sig == f.Sig {
-					found = true
+		stable := func(hist []HistItem) bool {
+			for t := 0; t < 5; t++ {
+				found := false
+				for _, g := range safeReplay(h, hist, sc, f.Choices) {
+					if g.Sig == f.Sig {
+						found = true
+					}
+				}
+				if !found {
+					return false
 				}
 			}
-			if !found {
-				f.Stable = false
-				rep.Incident("HARNESS-NONDETERMINISM")
-				break
-			}
+			return true
+		}
+		switch {
+		case stable(nil):
+			f.History = nil
+		case len(f.History) > 0 && h.ReplayH != nil && stable(f.History):
+			// reproducible, but only after earlier executions on the same instance
+			rep.Count("failures_needing_history", 1)
+		default:
+			f.Stable = false
+			rep.Incident("HARNESS-NONDETERMINISM")
 		}
 	}
 	rep.finalize()
@@ -341,7 +427,7 @@ func (rep *Report) finalize() {
 	rep.States += int64(len(rep.stateSet))
 }
 
-func safeReplay(h *Harness, sc any, choices []int) (fs []explore.Failure) {
+func safeReplay(h *Harness, hist []HistItem, sc any, choices []int) (fs []explore.Failure) {
 	defer func() {
 		if r := recover(); r != nil {
 			if _, ok := r.(explore.NondetError); ok {
@@ -351,6 +437,9 @@ func safeReplay(h *Harness, sc any, choices []int) (fs []explore.Failure) {
 			panic(r)
 		}
 	}()
+	if len(hist) > 0 && h.ReplayH != nil {
+		return h.ReplayH(hist, sc, choices)
+	}
 	return h.Replay(sc, choices)
 }
 
@@ -495,7 +584,7 @@ func parent(h *Harness, tier string, seed int64) int {
 		}
 		violations++
 		rp := filepath.Join(vd, "replays", fmt.Sprintf("%s-%s.json", h.ID, sanitize(f.Sig)))
-		writeJSON(rp, map[string]any{"property": h.ID, "part": os.Getenv("VERIF_PART"), "sig": f.Sig, "msg": f.Msg, "scenario": f.Scenario, "choices": f.Choices})
+		writeJSON(rp, map[string]any{"property": h.ID, "part": os.Getenv("VERIF_PART"), "sig": f.Sig, "msg": f.Msg, "scenario": f.Scenario, "choices": f.Choices, "history": f.History})
 		fmt.Fprintf(w, "VIOLATION property=%s replay=%s\n  sig=%s\n  %s\n", h.ID, rp, f.Sig, f.Msg)
 	}
 	exhaustive := len(m.CapsHit) == 0 && len(m.Incidents) == 0
@@ -588,6 +677,7 @@ func doReplay(h *Harness, path string) int {
 		Sig      string          `json:"sig"`
 		Scenario json.RawMessage `json:"scenario"`
 		Choices  []int           `json:"choices"`
+		History  []HistItem      `json:"history"`
 	}
 	if err := json.Unmarshal(b, &rf); err != nil {
 		fmt.Println("replay:", err)
@@ -598,7 +688,7 @@ func doReplay(h *Harness, path string) int {
 		fmt.Println("replay:", err)
 		return 2
 	}
-	fs := safeReplay(h, sc, rf.Choices)
+	fs := safeReplay(h, rf.History, sc, rf.Choices)
 	hit := false
 	for _, f := range fs {
 		fmt.Printf("replayed failure sig=%s\n  %s\n", f.Sig, f.Msg)
